@@ -136,8 +136,25 @@ func float64exp(f float64) int {
 	}
 	exp := int(exp10)
 
-	// the estimate from the binary exponent may be too high (always for subnormals), correct it
-	for f != 0.0 && math.Abs(f) < math.Pow10(exp) {
+	// the estimate from the binary exponent may be too high (always for subnormals), correct it: scaled by the power
+	// of ten the number must not be below one (the same scaling gives the digits later on)
+	for f != 0.0 {
+		if 0 <= exp {
+			if math.Pow10(exp) <= math.Abs(f) {
+				break
+			}
+		} else {
+			// a negative power of ten is not exact, scale by the positive power instead
+			g, e := math.Abs(f), exp
+			if e < -290 {
+				// math.Pow10 is infinite above 1e308
+				g *= 1e290
+				e += 290
+			}
+			if 1.0 <= g*math.Pow10(-e) {
+				break
+			}
+		}
 		exp--
 	}
 	return exp
@@ -157,6 +174,7 @@ func AppendFloat(b []byte, f float64, prec int) []byte {
 	if prec < 0 || 17 < prec {
 		prec = 17 // maximum number of significant digits in double
 	}
+	digits := prec        // number of significant digits minus one
 	prec -= float64exp(f) // number of digits in front of the dot
 	if 308 < prec {
 		// math.Pow10 is infinite above 1e308
@@ -168,6 +186,10 @@ func AppendFloat(b []byte, f float64, prec int) []byte {
 
 	// calculate mantissa and exponent
 	mant := int64(f)
+	if f != 0.0 && mant < int64pow10[digits] {
+		// the scaled number is at least 10^digits, but the multiplication may round to just below it
+		mant = int64pow10[digits]
+	}
 	mantLen := LenInt(mant)
 	mantExp := mantLen - prec - 1
 	if mant == 0 {
